@@ -125,6 +125,19 @@ func (g *Gen) Next(step int) Op {
 				}
 			}
 		}
+		if op.Script && g.R.Intn(4) == 0 {
+			// the same bounded-overdraft source used twice in one script: the allowance is consumed once, not per send
+			// (amount = allowance: with a balance below the allowance the first send fits and the second must not)
+			for i, p := range op.Ps {
+				if p.S != "world" && p.B > 0 {
+					op.Ps[i].N = p.B
+					q := op.Ps[i]
+					q.D = g.pick(GenAccounts)
+					op.Ps = append(op.Ps, q)
+					break
+				}
+			}
+		}
 		if g.R.Intn(6) == 0 {
 			// a posting of an account to itself, placed before a posting that spends from that account: the funds
 			// it "moved" must still be there
